@@ -24,7 +24,8 @@ import (
 )
 
 type c15Handler struct {
-	Kind    string `json:"kind"` // watch | late | notify | stream | reverse | latenotify
+	Kind    string `json:"kind"`            // watch | late | notify | stream | reverse | latenotify | substart (a subscribing call whose handler returns its channel at about the moment the connection ends)
+	Count   int    `json:"count,omitempty"` // substart: that many of them (default 1)
 	Size    int    `json:"size,omitempty"`
 	ReactMs int    `json:"react_ms,omitempty"`
 }
@@ -101,10 +102,19 @@ func runC15(c c15Case) (*Violation, string) {
 		p *Pending
 	}
 	var hsl []*hs
+	var atEnd []*Pending // released together with the end cause
 	for i, h := range c.Handlers {
 		tok := rig.Tok(fmt.Sprintf("%s%d", h.Kind, i))
 		var p *Pending
 		switch h.Kind {
+		case "substart":
+			for k := 1; k < h.Count; k++ {
+				extra := rig.Go(cl, "sub", rig.Tok(fmt.Sprintf("substart%d_%d", i, k)), Plan{Gate: true, N: 3, Early: 1})
+				hsl = append(hsl, &hs{h, extra})
+				atEnd = append(atEnd, extra)
+			}
+			p = rig.Go(cl, "sub", tok, Plan{Gate: true, N: 3, Early: 1})
+			atEnd = append(atEnd, p)
 		case "watch":
 			p = rig.Go(cl, "call", tok, Plan{Gate: true, WatchCtx: true, ReactMs: h.ReactMs, Size: h.Size})
 		case "late":
@@ -171,6 +181,14 @@ func runC15(c c15Case) (*Violation, string) {
 			time.Sleep(10 * time.Millisecond)
 		}
 		time.Sleep(150 * time.Millisecond)
+	}
+	if len(atEnd) > 0 {
+		go func() {
+			for _, p := range atEnd {
+				rig.W.Release(p.Tok)
+			}
+		}()
+		time.Sleep(time.Duration(len(atEnd)) * 2 * time.Microsecond)
 	}
 	switch c.Cause {
 	case "closer":
@@ -274,16 +292,16 @@ func c15NT(c c15Case) (bool, []string) {
 	return len(c.Handlers) >= 2, cl
 }
 
-var c15Kinds = []string{"watch", "late", "notify", "latenotify", "stream", "reverse"}
+var c15Kinds = []string{"watch", "late", "notify", "latenotify", "stream", "reverse", "substart"}
 var c15Causes = []string{"closer", "fin", "rst", "server_ctx"}
 
-const c15Rule = "end-of-connection cause {client closer (graceful close frame), FIN, RST, server-side context cancel} x 1-6 handlers in progress from {unary that watches its context (reaction time 0-50 ms), unary that finishes only after the connection is gone (response 0-40000 bytes), notification (both flavours), streaming into a returned channel, blocked in a reverse call}; census of goroutines by the library's per-connection pprof label. Complete grid of cause x single handler kind and cause x all pairs. Non-trivial = >=2 handlers in progress at connection end; distinct by descriptor hash"
+const c15Rule = "end-of-connection cause {client closer (graceful close frame), FIN, RST, server-side context cancel} x 1-6 handlers in progress from {unary that watches its context (reaction time 0-50 ms), unary that finishes only after the connection is gone (response 0-40000 bytes), notification (both flavours), streaming into a returned channel, blocked in a reverse call, 1-200 subscribing calls whose handlers return their channels at about the moment the connection ends}; census of goroutines by the library's per-connection pprof label. Complete grid of cause x single handler kind and cause x all pairs. Non-trivial = >=2 handlers in progress at connection end; distinct by descriptor hash"
 
 func TestC15(t *testing.T) {
 	rec := NewRec("C15", c15Rule)
 	defer rec.Finish(t)
 	rec.EnableJournal()
-	rec.RequireClass("partial_message_pending", "stalled_write_at_end", "empty_frame_before_end", "cause_closer", "cause_fin", "cause_rst", "cause_server_ctx", "handler_watch", "handler_late", "handler_notify", "handler_stream", "handler_reverse", "large_response")
+	rec.RequireClass("handler_substart", "partial_message_pending", "stalled_write_at_end", "empty_frame_before_end", "cause_closer", "cause_fin", "cause_rst", "cause_server_ctx", "handler_watch", "handler_late", "handler_notify", "handler_stream", "handler_reverse", "large_response")
 	known := rec.IsKnown("lazywriter-leak")
 	run := func(ft failer, c c15Case) {
 		if known {
@@ -331,6 +349,7 @@ func TestC15(t *testing.T) {
 			if cause != "closer" {
 				run(t, c15Case{Cause: cause, Handlers: []c15Handler{{Kind: "watch"}, {Kind: "notify"}}, Stall: true})
 			}
+			run(t, c15Case{Cause: cause, Handlers: []c15Handler{{Kind: "substart", Count: 200}, {Kind: "stream"}}})
 			for i, a := range c15Kinds {
 				k++
 				if k%nsh == sh {
@@ -359,6 +378,9 @@ func TestC15(t *testing.T) {
 		for i := 0; i < n; i++ {
 			c.Handlers = append(c.Handlers, c15Handler{Kind: rapid.SampledFrom(c15Kinds).Draw(rt, fmt.Sprintf("kind%d", i)),
 				Size: rapid.SampledFrom([]int{0, 0, 100, 5000, 40000}).Draw(rt, fmt.Sprintf("size%d", i)), ReactMs: rapid.SampledFrom([]int{0, 0, 5, 50}).Draw(rt, fmt.Sprintf("react%d", i))})
+			if h := &c.Handlers[len(c.Handlers)-1]; h.Kind == "substart" {
+				h.Count = rapid.SampledFrom([]int{1, 3, 30, 200}).Draw(rt, fmt.Sprintf("count%d", i))
+			}
 		}
 		run(rt, c)
 	})
